@@ -1,6 +1,6 @@
 #!/bin/bash
 # tools/seedtest.sh <patch.diff> <ID> [extra check args] : apply a seeded change to /repo, run the quick check, undo.
-P="$1"; ID="$2"; shift 2
+P="$(realpath "$1")"; ID="$2"; shift 2
 cd /repo || exit 2
 if ! git diff --quiet; then echo "/repo has uncommitted changes"; exit 2; fi
 git apply "$P" || { echo "patch does not apply"; exit 2; }
